@@ -53,7 +53,7 @@ def run_checks(d):
     env = dict(os.environ, NV_EVIDENCE_DIR=ev)
     res = {}
     for p in PROPS:
-        rc, out = sh("./check %s --repo %s" % (p, d), cwd=VERIF, env=env, timeout=900)
+        rc, out = sh("./check %s --no-selftest --repo %s" % (p, d), cwd=VERIF, env=env, timeout=900)
         if "unknown property" in out:
             continue
         rules = sorted({l.split("rule=")[1].split()[0] for l in out.splitlines() if l.strip().startswith("violation rule=")})
